@@ -37,7 +37,7 @@ fn dispatch(w: &[&str]) -> String {
         // connection-level engines share one scenario interpreter; the engine name selects the
         // Lean model/spec and the Python projection, not the Rust behaviour
         Some("conn") | Some("goaway") | Some("drain") | Some("req") | Some("ctl") | Some("out") | Some("iso")
-        | Some("e2e") | Some("adv") | Some("wt") | Some("lim") | Some("flt") | Some("flt5") => scen::handle(w),
+        | Some("e2e") | Some("adv") | Some("wt") | Some("lim") | Some("flt") | Some("flt5") | Some("hnd5") => scen::handle(w),
         _ => "bad-op".into(),
     }
 }
